@@ -143,7 +143,8 @@ func corrC18(c *corrCtx) {
 			jfull, jneeded := jd.build()
 			jprefix := jfull[:len(jfull)-2] // drop EOI: entropy-coded data follows
 			// WebP
-			kind := []string{"VP8", "VP8L", "VP8X"}[r.intn(3)]
+			kind := []string{"VP8", "VP8L", "VP8X"}[rep%3]
+			r.intn(3)
 			var icc []byte
 			if withICC {
 				kind = "VP8X"
@@ -151,6 +152,12 @@ func corrC18(c *corrCtx) {
 			}
 			wd := randWebpDesc(r, kind, icc)
 			wd.body = nil
+			if kind == "VP8X" && (rep%2 == 0 || withICC) {
+				// extended-format chunks that are image data too (an alpha plane, animation frames) in front
+				// of the bitstream chunk: nothing behind the header part (and the ICCP chunk) is needed
+				wd.alpha = true
+				wd.between = append(riffChunk("ALPH", make([]byte, r.pick(70000, 300000, 1<<20))), riffChunk("EXIF", r.bytes(100))...)
+			}
 			wfull, wneeded := wd.build()
 			for _, tail := range tails {
 				scheds := [][]int{nil, fixedScheds[1+r.intn(len(fixedScheds)-1)], randSched(r)}
